@@ -56,6 +56,11 @@ fn main() {
         props::c02::debug_golden();
         return;
     }
+    if args[1] == "child-crash" {
+        driver::configure("regtest");
+        props::c04::child_main(&args[2..]);
+        return;
+    }
     if args[1] == "child-start" {
         props::c20::child_main(&args[2..]);
         return;
